@@ -198,6 +198,7 @@ func run(r *evid.Run) {
 		maxChain = 3
 	}
 	r.Rule(fmt.Sprintf("(a) silent: per base schema in {proto2, proto3, edition 2023}: identity; every ordered pair of %d cosmetic renderings (comments, indentation, blank lines, import order, token spacing; proto2 also: the implied syntax line left out, 2 more renderings), single additive steps also on the proto2 base without syntax declarations; every chain of length <= 2 over the additive operators at their canonical site (max length here: %d; length 3 over the 12 core operators; thorough: single steps also at every site), each S_i compared with every earlier S_j; configs FILE/PACKAGE/WIRE_JSON/WIRE and their union x v1beta1/v1/v2 (quick: intermediate pairs only under the unions). "+
+		"(a, many files) thread parallelism set to 2, 3 (thorough: 4, 5 and the machine's own) in a serial section: modules of n small files (layouts own-package / packages of three, without imports / every fourth file importing the next two) for every n from one below the switch-over of bufprotosource.NewFiles to parallel chunks (8 files per unit of parallelism) through every remainder to the next multiple, and every remainder in the second round of chunks: identity (two builds), every ordered pair of 3 renderings (canonical, imports reversed = other image order, everything), every chain of length <= 2 over 4 additive operators (new file sorting first / in the middle / last, new import of a late file), each S_i against every earlier S_j; "+
 		"(b) hierarchy: every (old,new) pair of the C03 catalogue (quick: without surrounding; all versions at the top / file positions, v2 at the nested / second-file positions, field-type table at the top position under v2; thorough: every position and version, also with the index-shifting surrounding) and every ordered pair of edited schemas of a base (quick: one per distinct expected-rule set, <=28, v2; thorough: one per operator+variant, <=60, all versions); "+
 		"distinct key = kind/pair id; a pair is non-trivial when old and new differ", len(styles)-2, maxChain))
 	r.Assume("'additive' is the property's list: new files, messages, enums, services, RPCs, oneofs (with new fields), reserved ranges/names, enum values and non-required fields with fresh numbers and names, new imports; extensions with fresh numbers are treated as non-required fields")
